@@ -178,16 +178,16 @@ theorem submitRow_tracks (e : Env) (p : Page) (cv : Canvas) (row l r : Nat) (don
       omega
     · rfl
   · intro rr c hr hc hout
-    show cv.tx rr c ≠ (if rr = row - 1 then p.chars (row - 1) c else p.utext rr c) → _
+    show cv.tx rr c ≠ (if rr = row - 1 then e.conv (fun c => p.chars (row - 1) c) c else p.utext rr c) → _
     split_ifs with hrr
     · subst hrr
       intro hne
       exfalso
       -- the cell is outside [start, stop]: neither a stale dirty cell nor a changed character
       by_cases h1 : cv.tx (row - 1) c = p.utext (row - 1) c
-      · have hne' : p.utext (row - 1) c ≠ p.chars (row - 1) c := by rw [← h1]; exact hne
-        have a1 := firstDiff_le (fun c => p.utext (row - 1) c) (fun c => p.chars (row - 1) c) e.g.tw e.g.tw c hc hne'
-        have a2 := lastDiff_ge (fun c => p.utext (row - 1) c) (fun c => p.chars (row - 1) c) e.g.tw c hc hne'
+      · have hne' : p.utext (row - 1) c ≠ e.conv (fun c => p.chars (row - 1) c) c := by rw [← h1]; exact hne
+        have a1 := firstDiff_le (fun c => p.utext (row - 1) c) (e.conv (fun c => p.chars (row - 1) c)) e.g.tw e.g.tw c hc hne'
+        have a2 := lastDiff_ge (fun c => p.utext (row - 1) c) (e.conv (fun c => p.chars (row - 1) c)) e.g.tw c hc hne'
         apply hout; omega
       · obtain ⟨⟨l', r', hcov, hl, hr'⟩, _⟩ := htx (row - 1) c hr hc h1
         have hrow' : row - 1 + 1 = row := by omega
@@ -383,7 +383,10 @@ theorem clearRows_tracks (e : Env) (p : Page) (cv : Canvas) (start stop attr : N
     Tracks e (clearRows e p start stop attr).1 (consume cv (clearRows e p start stop attr).2) := by
   obtain ⟨hg, hpx, htx⟩ := ht
   obtain ⟨h1, h2, h3, h4, h5, h6⟩ := hg
-  simp only [clearRows, clearTextArea]
+  have hfull : (e.dbcs && decide (e.g.tw - 1 + 1 < e.g.tw)) = false := by
+    have : ¬ (e.g.tw - 1 + 1 < e.g.tw) := by omega
+    simp [this]
+  simp only [clearRows, clearTextArea, hfull]
   simp (disch := intro r; exact hd r) only [forceSubmit_clean]
   simp only [hv, if_true, List.nil_append, consume, List.foldl, consume1]
   refine ⟨⟨h1, h2, h3, h4, h5, h6⟩, ?_, ?_⟩
@@ -393,7 +396,7 @@ theorem clearRows_tracks (e : Env) (p : Page) (cv : Canvas) (start stop attr : N
   · intro r c hr hc
     simp only [fillRect, h4]
     rw [htx r c hr hc]
-    simp only [decide_eq_true_eq]
+    simp only [decide_eq_true_eq, Bool.false_eq_true, if_false]
 
 theorem clearRowFrom_visible (e : Env) (p : Page) (a b c : Nat) :
     (clearRowFrom e p a b c).1.visible = p.visible := by
@@ -415,10 +418,19 @@ theorem clearRowFrom_tracks (e : Env) (p : Page) (cv : Canvas) (row col attr : N
   · refine markDirty_tracks e _ cv _ _ _ (by exact hv) ht.1 ht.2.1 ?_
     intro r c hr hc hne
     have hag := (ht.clean hd).2.2 r c hr hc
-    simp only [clearTextArea, decide_eq_true_eq] at hne
-    split_ifs at hne with hin
+    by_cases hrr : r + 1 = row
     · right; omega
-    · exact absurd hag hne
+    · left
+      exfalso
+      apply hne
+      rw [hag]
+      have hnr : ¬ (row - 1 ≤ r ∧ r < row) := by omega
+      simp only [clearTextArea, decide_eq_true_eq]
+      cases hb : (e.dbcs && decide (e.g.tw - col + 1 < e.g.tw)) with
+      | true => simp only [if_true, hnr, if_false]
+      | false =>
+        simp only [Bool.false_eq_true, if_false]
+        rw [if_neg (fun h => hnr ⟨h.1, h.2.1⟩)]
 
 
 /-! ### scrolling -/
@@ -564,7 +576,7 @@ theorem setPixels_silent (e : Env) (p : Page) (a b c d : Nat) (m : Mat) (hv : p.
   simp only [setPixels]; exact submit_silent _ _ _ _ _ _ hv
 
 theorem setPixels_tracks (e : Env) (p : Page) (cv : Canvas) (y0 y1 x0 x1 : Nat) (m : Mat)
-    (hy : y0 < y1) (hx : x0 < x1)
+    (hy : y0 < y1) (hx : x0 < x1) (hdb : e.dbcs = false)
     (hv : p.visible = true) (ht : TD e p cv) :
     TD e (setPixels e p y0 y1 x0 x1 m).1 (consume cv (setPixels e p y0 y1 x0 x1 m).2) := by
   obtain ⟨hg, hpx, htx⟩ := ht
@@ -589,10 +601,10 @@ theorem setPixels_tracks (e : Env) (p : Page) (cv : Canvas) (y0 y1 x0 x1 : Nat) 
              cellOf_lo _ _ _ _ hfw hc.2.2.1, cellOf_hi _ _ _ _ hfw (by omega) hxW⟩
     · rfl
   · intro r c hr hc hout hne
-    have : (clearTextArea { p with px := setRect p.px y0 x0 { h := y1 - y0, w := x1 - x0, f := m } }
+    have : (clearTextArea e { p with px := setRect p.px y0 x0 { h := y1 - y0, w := x1 - x0, f := m } }
         (cellOf e.g.th e.g.fh y0) (cellOf e.g.tw e.g.fw x0) (cellOf e.g.th e.g.fh (y1 - 1))
         (cellOf e.g.tw e.g.fw (x1 - 1)) 0).utext r c = p.utext r c := by
-      simp only [clearTextArea, decide_eq_true_eq]
+      simp only [clearTextArea, decide_eq_true_eq, hdb, Bool.false_and, Bool.false_eq_true, if_false]
       rw [if_neg hout]
     rw [this] at hne
     exact htx r c hr hc hne
@@ -694,7 +706,7 @@ theorem pop_tracks (e : Env) (p : Page) (cv : Canvas) (o : POp) (hval : o.valid 
     exact clearRowFrom_tracks e p cv a b c hval.1 (hc hval.2.2.2.2) hv ht
   | scrollUp a b c => exact (scrollUp_tracks e p cv a b c hval.1 hval.2.1 hval.2.2 hv ht).toD
   | scrollDown a b c => exact (scrollDown_tracks e p cv a b c hval.1 hval.2.1 hval.2.2 hv ht).toD
-  | setPixels a b c d m => exact setPixels_tracks e p cv a b c d m hval.1 hval.2.2.1 hv ht
+  | setPixels a b c d m => exact setPixels_tracks e p cv a b c d m hval.1 hval.2.2.1 hval.2.2.2.2 hv ht
 
 
 /-! ### validity is decidable (used for the non-vacuity examples) -/
